@@ -8,6 +8,7 @@ EXTENDS Vector, Json
 
 CONSTANTS MaxLen,      \* kernel cases for every length 1..MaxLen
           LawDim,      \* laws over all vectors of dimension 1..LawDim
+          Rich,        \* TRUE: three spike values at every position; FALSE: one (cycling through the three with the position)
           LawFull      \* TRUE: components -3..3 and Large, every query in -3..3; FALSE: a representative subset
 
 VARIABLE c
@@ -39,9 +40,10 @@ Prefix(n, p) == [j \in 1..n |-> IF j <= p THEN 1 ELSE 0]
 PatA(n) == [j \in 1..n |-> ((2 * j) % 7) - 3]          \* all of -3..3, negative components
 PatB(n) == [j \in 1..n |-> ((3 * j + 1) % 7) - 3]
 KC(f, n, p, a, b) == [fam |-> f, n |-> n, pos |-> p, a |-> a, b |-> b]
+Pick(s, i) == IF Rich THEN {s[1], s[2], s[3]} ELSE {s[(i % 3) + 1]}
 KCasesOf(n) ==
-         {KC("spike_zero", n, i, Spike(n, i, x), Zero(n)) : i \in 1..n, x \in {-2, 3, Large}}
-    \cup {KC("spike_ones", n, i, Spike(n, i, x), Ones(n)) : i \in 1..n, x \in {-3, 2, Large}}
+         UNION {{KC("spike_zero", n, i, Spike(n, i, x), Zero(n)) : x \in Pick(<<-2, 3, Large>>, i + n)} : i \in 1..n}
+    \cup UNION {{KC("spike_ones", n, i, Spike(n, i, x), Ones(n)) : x \in Pick(<<Large, -3, 2>>, i + n)} : i \in 1..n}
     \cup {KC("spike_mirror", n, i, Spike(n, i, Large), Spike(n, n + 1 - i, -3)) : i \in 1..n}
     \cup {KC("spike_same", n, i, Spike(n, i, 2), Spike(n, i, 3)) : i \in 1..n}
     \cup {KC("prefix_zero", n, p, Prefix(n, p), Zero(n)) : p \in 1..n}
